@@ -132,6 +132,25 @@ void h_has_tasks_none(void) {
     else if (!r) CANARY("nothing pending"); else CANARY("pending");
 }
 
+/* ---------------------------------------------------------------- the heap's ordering function */
+/* ALL pairs of heap slots (same slot, two slots with the same task, different tasks) and ALL 64-bit time stamps (the
+ * arena tasks' fields are arbitrary).  Unbounded: the function is loop-free, nothing is cut down. */
+void h_compare_timestamps(void) {
+    TS_GHOSTS(); ts_build();
+    size_t i = nondet_size_t(), j = nondet_size_t();
+    __CPROVER_assume(i < TSK && j < TSK);
+    uint64_t ta = g_tk[i].timestamp, tb = g_tk[j].timestamp;
+    int r = s_compare_timestamps(&g_q_slot[i], &g_q_slot[j]);
+    if (i == j) CANARY("same slot");
+    else if (ta == tb) CANARY("two tasks of equal time");
+    else if (ta == 0 && tb == UINT64_MAX) CANARY("0 against UINT64_MAX");
+    else if (ta == UINT64_MAX && tb == 0) CANARY("UINT64_MAX against 0");
+    else if (ta > tb && ta - tb > ((uint64_t)1 << 63)) CANARY("later, more than 2^63 apart");
+    else if (ta < tb && tb - ta > ((uint64_t)1 << 63)) CANARY("earlier, more than 2^63 apart");
+    else if (ta > tb) CANARY("later"); else CANARY("earlier");
+    if (r > 0) CANARY("result: a sinks below b"); else CANARY("result: a stays");
+}
+
 /* ---------------------------------------------------------------- forwarders */
 void h_init(void) {
     TS_GHOSTS();
